@@ -16,10 +16,13 @@ PROPS_PART = {
         verus=[dict(unit='zone_validation', which='all')],
         kani=[],
         native=[dict(bin='bnd_validation', when='quick',
-                     bound='all zones of <= 7 records out of a 19-record universe (1-2 apex SOA; apex NS into the zone / below a delegation; name-server A, AAAA; two sibling delegations with NS into the child, the sibling, the parent, '
-                           'out of the zone; glue for both; MX with exchanger covered by a wildcard A / a plain in-zone name; 1-2 CNAMEs + other data; NS at a wildcard) x classes IN, CH, 65280 x glue policies Narrow, Wide',
+                     bound='zones x classes IN, CH, 65280 x glue policies Narrow, Wide: (1) all zones of <= 7 records out of a 19-record universe (1-2 apex SOA; apex NS into the zone / below a delegation; name-server A, AAAA; two sibling delegations with NS into the child, the sibling, the parent, '
+                           'out of the zone; glue for both; MX with exchanger covered by a wildcard A / a plain in-zone name; 1-2 CNAMEs + other data; NS at a wildcard); (2) all subsets of a 14-record universe of nested delegations '
+                           '(d NS two labels below d / in the parent / in d; an NS RRset at sub.d - occluded when d is delegated - naming servers below itself, in sibling e, outside; glue at ns.sub.d, ns.d, ns.e; e NS below d / in e); '
+                           '(3) all subsets of an 11-record universe of a zone whose APEX is the wildcard name *.ap.ex. (1-2 SOA, apex NS in / out of / beside the zone, its A/AAAA, a delegation + glue, a deeper wildcard owning NS, TXT)',
                      what='the SET of issues of the real Zone::validate on a real HashMapTreeZone == an executable reference checker written from the property text / RFC 1035 5.2 checks / GluePolicy documentation (on the flat-list zone model '
-                          'of bounded/src/zone_ref.rs); is_error false exactly for MissingMxAddress and NsAtWildcard. Not constrained: order/multiplicity of issues, occluded NS/MX, malformed NS/MX RDATA, wildcards owning NS that cover name servers')],
+                          'of bounded/src/zone_ref.rs); is_error false exactly for MissingMxAddress and NsAtWildcard. Not constrained: order/multiplicity of issues, occluded MX (none), malformed NS/MX RDATA, wildcards owning NS that cover name servers; '
+                          'for OCCLUDED NS RRsets the address/glue issues that exist under any reading of the GluePolicy documentation are allowed, never required (the documentation does not determine them)')],
         cex={},
         unverified=['that Zone::iter_by_node of the real HashMapTreeZone enumerates every node exactly (C20; assumed contract of the NodeIter stand-in)',
                     'provided trait methods Zone::soa / Zone::ns / Zone::validate (one-line wrappers) and fmt::Display for ValidationIssue',
@@ -43,6 +46,13 @@ PROPS_PART = {
                    'conversions); validator contracts from unit rdata and serializer contracts from unit rdata_ser (run as part of this check); '
                    'Rdata::new_in_wks is assumed valid. Rewrite rules ZF1-ZF6 (eta-expansions / checked closure annotations).',
         verus=[dict(unit='zone_file_records', which='all'), dict(unit='rdata', which='all'), dict(unit='rdata_ser', which='all')],
+        native=[dict(bin='bnd_zone_file', when='quick',
+                     bound='zone_file::Parser and Parser::records_only, each text read whole / 1 / 7 octets per read(): 2 contexts x 9 class tokens x 62 type tokens (mnemonics in any case, TYPEnnn for known / NULL / OPT / TSIG / unknown / malformed numbers) x 153 RDATA texts '
+                           '(presentation forms of every supported type + RFC 3597 generic forms incl. \\# 0, wrong lengths, malformed-for-type); 28 preambles ($ORIGIN/$TTL/$INCLUDE valid, invalid, relative) x 16 owners x 20 TTL/class orders x 11 records + continuation line; '
+                           'TXT RDATA of 65534..65537 octets in 4 shapes, generic \\# 65534..65537 for 7 types, fields of 65535..70000 octets in 43 positions, WKS with 65534..65537 ports, strings of 254..257, labels of 62..65, names of 252..257 octets; '
+                           '4 multi-record zone texts x every prefix / 1-byte deletion / 1-byte substitution and insertion from 18 symbols; all byte strings of length <= 3 over 20 symbols; all sequences of <= 4 tokens over 16 tokens',
+                     what='on the real parser (tokenizer included): never panics, terminates (item cap 10000), yields nothing after its first error; every yielded record has a well-formed absolute owner, a type other than NULL/OPT/TSIG, '
+                          'RDATA of <= 65535 octets valid per Rdata::validate(class, type) AND per the independent RFC layout reference bounded/src/wire_ref.rs. Which error is returned / how many records are yielded is not constrained')],
         kani=[],
         cex={},
         unverified=['termination and panic-freedom of the tokenizer src/zone_file/reader.rs and of zone_file/fs.rs for arbitrary input (the bounded Kani harness kani/zone_file.rs::bnd_zone_file_parser_3 timed out at 900 s and is not registered)',
